@@ -1095,6 +1095,8 @@ def c15(ctx):
                         "impl": str(res.get("g"))[:300], "model": str(res.get("r"))[:300],
                         "property_violation": {"what": "the generic and the rdflib serializer write different bytes for corresponding data and the same options"}, "signature": {}})
     out += c15_grouped(ctx, ctx.n(60, 800))
+    # literals of xsd:token / xsd:normalizedString whose lexical form the whiteSpace facet would rewrite: both integrations must hand out the form sent
+    out += ref_sweep(ctx, ctx.n(30, 500), igs=("g", "r"), modes=("flat", "grouped", "to_graph"), rdf11=True, facet_p=0.35)
     return out
 
 
